@@ -42,3 +42,80 @@ Definition oracle_c05 (r : response) (ver : version) (rh : list header) (head : 
           end
       end
   end.
+
+(* C19: the header block of the output is the policy block (upgrade pair, Server and Date unless
+   supplied, the kept application headers in order) followed only by framing headers; the
+   data_length getter reports what the constructors / Content-Length headers / with_data declared. *)
+From TH Require Import Http.C19Spec.
+
+Fixpoint beq_headers (a b : list header) : bool :=
+  match a, b with
+  | [], [] => true
+  | x :: a', y :: b' => beq (hname x) (hname y) && beq (hvalue x) (hvalue y) && beq_headers a' b'
+  | _, _ => false
+  end.
+
+Definition is_framing (h : header) : bool := equiv "Content-Length" h || equiv "Transfer-Encoding" h.
+
+(* the declared length after the constructor and the builder calls, per the property text *)
+Definition declared_step (d : option N) (o : rop) : option N :=
+  match o with
+  | WithHeader h =>
+      if equiv "Content-Length" h then
+        match parse_usize (hvalue h) with Some v => Some v | None => d end
+      else d
+  | WithData _ l => l
+  | _ => d
+  end.
+Definition declared_length (init : option N) (ctor_headers : list header) (ops : list rop) : option N :=
+  fold_left declared_step (map WithHeader ctor_headers ++ ops) init.
+
+Definition beq_optN (a b : option N) : bool :=
+  match a, b with
+  | None, None => true
+  | Some x, Some y => (x =? y)%N
+  | _, _ => false
+  end.
+
+Definition oracle_c19 (date : bytes) (init : option N) (ctor_headers : list header) (ops : list rop)
+                      (head : bool) (up : option bytes) (out : bytes) (getter_dl : option N) : verdict :=
+  match parse_response head out with
+  | None => VFail (s "output is not a well-formed complete response")
+  | Some p =>
+      let want := map (fun h => mkH (hname h) (trim_ows (hvalue h)))
+                      (policy_headers date (supplied_of ctor_headers ops) up) in
+      let n := List.length want in
+      (* the policy block, then nothing but (at most) the one framing header raw_print appends *)
+      let extra_ok := match skipn n (p_headers p) with
+                      | [] => true
+                      | [h] => is_framing h
+                      | _ => false
+                      end in
+      if negb (beq_headers (firstn n (p_headers p)) want && extra_ok)
+      then VFail (s "header block differs from the policy")
+      else if negb (beq_optN getter_dl (declared_length init ctor_headers ops))
+      then VFail (s "declared length differs from what the constructors and Content-Length headers declare")
+      else VOk
+  end.
+
+(* C04: the output is exactly one well-formed message: it parses completely (nothing left over),
+   the client knows its end without waiting for the connection to close, the status is the given
+   one and the recovered body is the application's body (empty for HEAD, 1xx, 204, 304). *)
+Definition oracle_c04 (r : response) (head : bool) (out : bytes) : verdict :=
+  if negb ((100 <=? status r) && (status r <=? 999))%N then VSkip else
+  match parse_response head out with
+  | None => VFail (s "output is not a well-formed complete response")
+  | Some p =>
+      if negb (p_status p =? status r)%N then VFail (s "status code differs")
+      else if negb (beq (p_rest p) []) then VFail (s "bytes left over after the end of the message")
+      else match p_delim p with
+           | UntilClose => VFail (s "message end is only signalled by connection close")
+           | NoBody =>
+               if head || bodyless_status (status r) then VOk
+               else VFail (s "body missing")
+           | _ =>
+               if head || bodyless_status (status r) then VFail (s "body bytes sent where none are allowed")
+               else if beq (p_body p) (rbody r) then VOk
+               else VFail (s "recovered body differs from the application's body")
+           end
+  end.
